@@ -22,6 +22,7 @@ def _owners():
         for op in ('hkdf_extract', 'hkdf_expand', 'pbkdf2', 'scrypt'):
             _OWN[op] = c10.check
         _OWN['argon2'] = c11.check
+        _OWN['argon2b'] = c11.check
         for op in ('x25519', 'x25519_base', 'x_dh', 'x_base', 'x25519_iter'):
             _OWN[op] = c12.check
         for op in ('ed_keypair', 'ed_sign', 'ed_sign_ext', 'ed_ext_pub', 'ed_exchange'):
@@ -56,6 +57,6 @@ def check_any(line, toks):
     fn = _owners().get(op)
     if fn is None:
         raise KeyError('no spec checker for op %s' % op)
-    if op in ('hh', 'sc', 'drg', 'mac', 'dig', 'aead_enc', 'aead_dec', 'aead_inc', 'hkdf_extract', 'hkdf_expand', 'pbkdf2', 'scrypt', 'argon2'):
+    if op in ('hh', 'sc', 'drg', 'mac', 'dig', 'aead_enc', 'aead_dec', 'aead_inc', 'hkdf_extract', 'hkdf_expand', 'pbkdf2', 'scrypt', 'argon2', 'argon2b'):
         return fn(body, toks)
     return fn(line, toks)
